@@ -5,5 +5,8 @@ let () =
   | [_; "chk-codec"; path] -> Chk_codec.run path
   | [_; "run-gw"; hist; out] -> Gw_io.run_model hist out
   | [_; "cmp-gw"; hist; impl] -> Cmp_gw.run hist impl
+  | [_; "cmp-cl"; hist; impl] -> Cmp_cl.run hist impl
+  | [_; "gen-cl"; seed; n; out] -> Gen_cl.run (int_of_string seed) (int_of_string n) out
+  | [_; "run-cl"; hist; out] -> Cl_io.run_model hist out
   | [_; "gen-gw"; seed; n; out] -> Gen_gw.run (int_of_string seed) (int_of_string n) out
   | _ -> prerr_endline "usage: driver chk-topics <file>"; exit 2
